@@ -57,3 +57,18 @@ Proof.
   apply main_fly_history_independent. unfold reads_only. auto 10.
 Qed.
 Print Assumptions C17_link_history_independent_for_this_tree.
+
+(* ---- round 4 ---- *)
+(* the finally clause does nothing but remove the context *)
+Theorem C17_link_finally_body : g_finally_body = ["del self.ctx"].
+Proof. reflexivity. Qed.
+Print Assumptions C17_link_finally_body.
+
+(* Builder._iterate_mass: `while not converged and iter < max_mass_iters` (the model's fuel max_mass_iters - 1), the
+   test is on abs(residual) (the model's [small]), and exactly the starting mass and the fuel load are corrected, by the
+   same amount (the model's [adjust] feeding both setattr) *)
+Theorem C17_link_iterate_mass :
+  g_iterate_limit_strict = true /\ g_iterate_test_uses_abs = true /\
+  g_iterate_corrects = ["starting_mass"; "total_fuel_mass"].
+Proof. repeat split; reflexivity. Qed.
+Print Assumptions C17_link_iterate_mass.
